@@ -415,8 +415,8 @@ class Builtins:
         self.emit(Obligation(self.cur_func_key, 'frame', f'{self.next_label()}', self.frame_props, [], z3.BoolVal(True),
                              origin=f'mutation of a function-local object only: {what}', path_kind='mutation', route='ownership'))
 
-    def frame_violation(self, st, what, node):
-        self.emit(Obligation(self.cur_func_key, 'frame', f'{self.next_label()}', self.frame_props,
+    def frame_violation(self, st, what, node, extra_props=()):
+        self.emit(Obligation(self.cur_func_key, 'frame', f'{self.next_label()}', sorted(set(self.frame_props) | set(extra_props)),
                              list(st.pc), z3.BoolVal(False), origin=f'mutation of a caller-owned object: {what}',
                              path_kind='mutation'))
 
@@ -1036,6 +1036,12 @@ class Builtins:
                 k = self.toVal(args[0], st)
                 d = self.toVal(args[1], st) if len(args) > 1 else th.NoneV
                 return self.hash_guard(k, VVal(z3.If(z3.Select(b.has, k), z3.Select(b.get, k), d)), st, f'get:{self.src(node)}', args[0])
+            if meth == 'setdefault':
+                k = self.toVal(args[0], st)
+                d = self.toVal(args[1], st) if len(args) > 1 else th.NoneV
+                cur = z3.If(z3.Select(b.has, k), z3.Select(b.get, k), d)
+                store(VMapB(z3.Store(b.has, k, True), z3.Store(b.get, k, cur)))
+                return self.hash_guard(k, VVal(cur), st, f'setdefault:{self.src(node)}', args[0])
             if meth == 'update':
                 m = b
                 for kname, v in kwargs.items():
